@@ -1,6 +1,8 @@
 package props
 
 import (
+	"github.com/freeconf/yang/parser"
+	"reflect"
 	"errors"
 	"fmt"
 	"strings"
@@ -25,6 +27,8 @@ type c08node struct {
 }
 
 func c08walk(kids []*gen.SNode, body []*gen.DNode, segs [][2]interface{}, path string, depth int, out *[]c08node) {
+	// choices and cases have no place in a path: the nodes of the cases stand where the choice stands
+	kids, body = gen.Flatten(kids, body)
 	for i, s := range kids {
 		d := body[i]
 		switch s.Kind {
@@ -58,6 +62,10 @@ func segTokens(segs [][2]interface{}) string {
 	return strings.Join(out, " ")
 }
 
+// struct-backed stores: an unset leaf reads as "" / 0
+var c08lenient bool
+var c08set map[string]bool
+
 // content of a selected container/entry: its leaves
 func c08leaves(sel *node.Selection, kids []*gen.SNode) (res string) {
 	defer func() {
@@ -74,6 +82,9 @@ func c08leaves(sel *node.Selection, kids []*gen.SNode) (res string) {
 		if err != nil {
 			return "error:" + err.Error()
 		}
+		if c08lenient && !c08set[k.Name] {
+			continue // a struct field cannot tell unset from empty / zero: only the leaves the tree sets are compared
+		}
 		if v != nil && k.Default == nil {
 			fmt.Fprintf(&sb, "%s=%q ", k.Name, v.String())
 		} else if v != nil {
@@ -85,8 +96,13 @@ func c08leaves(sel *node.Selection, kids []*gen.SNode) (res string) {
 
 func c08expectLeaves(kids []*gen.SNode, body []*gen.DNode) string {
 	var sb strings.Builder
+	c08set = map[string]bool{}
 	for i, k := range kids {
 		if k.Kind != "leaf" {
+			continue
+		}
+		c08set[k.Name] = body[i].Leaf != nil
+		if c08lenient && body[i].Leaf == nil {
 			continue
 		}
 		if body[i].Leaf != nil {
@@ -107,7 +123,7 @@ func C08(c *core.Ctx) {
 	}
 	rng := core.NewRng(c.Seed)
 	nTrees := c.N(120, 4000)
-	o := gen.Opts{MaxDepth: 3, MaxKids: 4, Defaults: true, MultiKeys: true, Hostile: true, NonConfig: true}
+	o := gen.Opts{MaxDepth: 3, MaxKids: 4, Defaults: true, MultiKeys: true, Hostile: true, NonConfig: true, NoZero: true}
 	var lines []string
 	type pend struct{ desc, goPath string }
 	var pends []pend
@@ -119,12 +135,44 @@ func C08(c *core.Ctx) {
 		}
 		r := rng.Fork()
 		tree := gen.GenBody(r, dc.kids, 55+r.Intn(40), o)
-		tgtKind := core.Pick(r, []string{"refstore", "refstore", "reflect-map"})
+		tgtKind := core.Pick(r, []string{"refstore", "refstore", "reflect-map", "node-map", "reflect-struct", "reflect-struct-ptr", "node-struct-ptr"})
+		if ti%5 == 4 {
+			// a schema with choices (nested in cases, shorthand cases, leaves and containers before and after them)
+			gen.ResetNames()
+			ck := gen.GenChoiceSchema(r, 0, 3+r.Intn(3))
+			cy := gen.Module("m", ck)
+			cm, cerr := parser.LoadModuleFromString(nil, cy)
+			if cerr != nil {
+				c.Violation(core.Replay{Kind: "harness", Summary: "choice module does not load: " + cerr.Error(), Input: cy, NoInputFound: true})
+				continue
+			}
+			dc = &dataCase{ck, cy, cm}
+			tree = gen.GenChoiceBody(r, ck, 70+r.Intn(30))
+			tgtKind = "refstore"
+			c.Count("schema", "with choices")
+		}
 		var root node.Node
 		var tgtMap map[string]interface{}
-		if tgtKind == "refstore" {
+		var tgtStruct reflect.Value
+		if strings.Contains(tgtKind, "-struct") && strings.Contains(gen.Canon(dc.kids, tree, false), `[""`) || strings.Contains(gen.Canon(dc.kids, tree, false), `" ""]`) && strings.Contains(tgtKind, "-struct") {
+			tgtKind = "refstore" // a struct field cannot hold the empty string as a key (it reads as unset)
+		}
+		c08lenient = strings.Contains(tgtKind, "-struct")
+		switch {
+		case tgtKind == "refstore":
 			root = refstore.NewBody(nil, dc.kids, tree, "")
-		} else {
+		case strings.Contains(tgtKind, "-struct"):
+			so := c03structOpts(tgtKind, r)
+			tgtStruct = gen.ToStruct(dc.kids, tree, gen.StructType(dc.kids, 0, so), so)
+			if strings.HasPrefix(tgtKind, "reflect-") {
+				root = nodeutil.ReflectChild(tgtStruct.Interface())
+			} else {
+				root = &nodeutil.Node{Object: tgtStruct.Interface()}
+			}
+		case tgtKind == "node-map":
+			tgtMap = gen.ToMap(dc.kids, tree)
+			root = &nodeutil.Node{Object: tgtMap}
+		default:
 			tgtMap = gen.ToMap(dc.kids, tree)
 			root = nodeutil.ReflectChild(tgtMap)
 		}
@@ -167,7 +215,7 @@ func C08(c *core.Ctx) {
 					c.Violation(core.Replay{Kind: "property-failure", Class: "find-error-" + vname + "-" + tgtKind, Summary: desc + ": error " + err.Error(), Input: input(n, vname)})
 					continue
 				case sel == nil:
-					if tgtKind == "reflect-map" && compound && c.IsKnown("map-list-compound-key", desc) {
+					if (tgtKind == "reflect-map" || tgtKind == "node-map") && compound && c.IsKnown("map-list-compound-key", desc) {
 						continue
 					}
 					c.Violation(core.Replay{Kind: "property-failure", Class: "find-nil-" + vname + "-" + tgtKind, Summary: desc + ": existing node not found", Input: input(n, vname)})
@@ -254,6 +302,8 @@ func C08(c *core.Ctx) {
 		var after string
 		if tgtKind == "refstore" {
 			after = gen.Canon(dc.kids, tree, false)
+		} else if tgtStruct.IsValid() {
+			after = gen.Canon(dc.kids, gen.FromStruct(dc.kids, tgtStruct, 0), false)
 		} else {
 			un := false
 			after = gen.Canon(dc.kids, gen.FromMap(dc.kids, tgtMap, &un), false)
